@@ -380,8 +380,11 @@ func c04ConcGen(g *Gen) {
 	mk := func(n int, base int) (pool [][]byte) {
 		serial++
 		for k := 0; k < n; k++ {
-			// every chunk has its own length and its own bytes
+			// every chunk has its own bytes; every second pool also has pairwise different lengths, the others one length
 			ln := base + k
+			if serial%2 == 0 {
+				ln = base + 4
+			}
 			d := make([]byte, ln)
 			for x := range d {
 				d[x] = byte('a' + (k+x*x+serial)%26)
